@@ -255,7 +255,7 @@ func histories(c *lib.Ctx, prog []rh.Emit) {
 		js := map[string]any{"recipe": sp, "steps": steps}
 		term := histCoq(t0, evs)
 		if i < nhCases {
-			c.Case(term, js, term, nsets >= 1 && ncalls >= 2)
+			c.Case(lib.App("SOld", term), js, term, nsets >= 1 && ncalls >= 2)
 		} else {
 			c.Eval(js, term, nsets >= 1 && ncalls >= 2)
 		}
